@@ -1,5 +1,10 @@
 """Implementation runner for C08/C09: scripted scope provider driven by a table
-(per reference: delay = number of initial Postponed answers, deps = references it waits for, never)."""
+(per reference: delay = number of initial Postponed answers, deps = references it waits for, never).
+Two ways of deciding "the references it waits for have resolved":
+  * table mode: the provider's own record of what it has resolved so far;
+  * query mode (case["where"] given): the way real providers do it - textx.scoping.tools.needs_to_be_resolved
+    on the object/attribute that holds the awaited reference, i.e. ReferenceResolver.has_unresolved_crossrefs of the
+    model that owns it (possibly another file)."""
 import json
 import os
 import shutil
@@ -10,6 +15,7 @@ from textx import metamodel_from_str
 from textx.exceptions import TextXSemanticError, TextXError
 from textx.scoping import Postponed
 from textx.scoping.providers import ImportURI
+from textx.scoping.tools import needs_to_be_resolved
 
 GRAMMAR = r'''
 Model: imports*=Import items*=Item holders*=Holder;
@@ -23,12 +29,35 @@ Part: 'single' single=[Item] | 'many' many+=[Item][','];
 
 
 class Scripted(ImportURI):
-    def __init__(self, table, log):
+    def __init__(self, table, log, where=None):
         ImportURI.__init__(self, None)
         self.table = table
         self.log = log
         self.asked = {}
         self.resolved = set()
+        self.where = where
+        self.models = {}
+
+    def _collect(self, m):
+        fn = os.path.basename(m._tx_filename)
+        if fn in self.models:
+            return
+        self.models[fn] = m
+        rep = getattr(m, "_tx_model_repository", None)
+        if rep is not None:
+            for x in rep.all_models:
+                self._collect(x)
+
+    def _pending(self, m, d):
+        """does the reference d still need to be resolved, as a real provider would ask it"""
+        fn, hname, pi, attr = self.where[str(d)]
+        if fn not in self.models:
+            self._collect(m)
+            for x in list(self.models.values()):
+                self._collect(x)
+        mod = self.models[fn]
+        part = [h for h in mod.holders if h.name == hname][0].parts[pi]
+        return needs_to_be_resolved(part, attr)
 
     def __call__(self, obj, attr, obj_ref):
         name = obj_ref.obj_name
@@ -37,11 +66,16 @@ class Scripted(ImportURI):
         k = self.asked.get(rid, 0)
         self.asked[rid] = k + 1
         self.log.append(rid)
-        if k < t["delay"] or t["never"] or not all(d in self.resolved for d in t["deps"]):
-            return Postponed()
         m = obj
         while hasattr(m, "parent"):
             m = m.parent
+        if k < t["delay"] or t["never"]:
+            return Postponed()
+        if self.where is None:
+            if not all(d in self.resolved for d in t["deps"]):
+                return Postponed()
+        elif any(self._pending(m, d) for d in t["deps"]):
+            return Postponed()
         for it in m.items:
             if it.name == "t%d" % t["tgt"]:
                 self.resolved.add(rid)
@@ -57,7 +91,7 @@ def run_case(case):
                 f.write(text)
         mm = metamodel_from_str(GRAMMAR)
         log = []
-        mm.register_scope_providers({"*.*": Scripted(case["table"], log)})
+        mm.register_scope_providers({"*.*": Scripted(case["table"], log, case.get("where"))})
         out = {"log": log}
         try:
             m = mm.model_from_file(os.path.join(d, case["main"]))
